@@ -1856,3 +1856,9 @@ for _pid in ("C08", "C09"):
       rule="INDEX.init", what="names are positions in the reduced matrix: shifted after every dropped node")
     V("%s-names-of-kept-nodes" % _pid.lower(), _pid, "undecided", UT, _DROP, "    G = only_directed(P)\n    connected = [i for i in range(len(P)) if len(adj(i, P)) > 0]\n    P = P[connected, :][:, connected]\n    indexes = list(connected)",
       what="the kept nodes' own names: correct, another form")
+
+# ------------------------------------------------------------------------------- mutation sweep (C19: inverted guards of the documented contract passed - the suite cannot import semi.py, so nothing else would notice)
+V("c19-graph-type-guard-inverted", "C19", "fire", SE, "        if not isinstance(graph, np.ndarray):\n            raise TypeError(_GRAPH_TYPE_ERROR)", "        if isinstance(graph, np.ndarray):\n            raise TypeError(_GRAPH_TYPE_ERROR)", rule="CONTRACT.graph-not-ndarray", what="every array graph is rejected")
+V("c19-data-type-guard-inverted", "C19", "fire", SE, "        if not isinstance(data, list):\n            raise TypeError(_DATA_TYPE_ERROR)", "        if isinstance(data, list):\n            raise TypeError(_DATA_TYPE_ERROR)", rule="CONTRACT.data-not-a-list", what="every list of samples is rejected")
+V("c19-n-length-guard-inverted", "C19", "fire", SE, "            if len(n) != self.e:\n                raise ValueError(_N_TYPE_ERROR)", "            if len(n) == self.e:\n                raise ValueError(_N_TYPE_ERROR)", rule="CONTRACT.n-list-wrong-length", what="a list n of the right length is rejected, any other accepted")
+V("c19-sample-ndim-guard-inverted", "C19", "fire", SE, "                elif sample.ndim != 2:\n                    raise ValueError(_DATA_TYPE_ERROR)", "                elif sample.ndim == 2:\n                    raise ValueError(_DATA_TYPE_ERROR)", rule="CONTRACT.sample-not-2d", what="two-dimensional samples rejected")
